@@ -53,10 +53,14 @@ type c18Op struct {
 	run  func() string // rendered result (deterministic)
 }
 
+// sync.Pool / sync.Once / sync.Mutex / atomic.* are skipped: their bits are runtime-managed (a pool is emptied by
+// the garbage collector at arbitrary moments, so including it makes every operation that happens to straddle a GC
+// look like a writer) and they are internally synchronised; what they guard is still walked, and misuse of them
+// shows in the per-call result oracle and in the free-running -race pass.
 var c18SnapOpts = snap.Options{WithCap: true, SkipTypes: map[reflect.Type]bool{
 	reflect.TypeOf((*logger.Logger)(nil)): true,
 	reflect.TypeOf(logger.Logger{}):       true,
-}}
+}, SkipPkgs: map[string]bool{"sync": true, "sync/atomic": true}}
 
 func c18Values() []c18Value {
 	var out []c18Value
